@@ -531,3 +531,31 @@ func emptyCollections(ptr any, toNil bool) {
 		return false
 	})
 }
+
+// observeNonUTF8Specifiers records (without judging: the property restricts
+// itself to what JSON can represent) whether specifiers that are not valid
+// UTF-8 survive their text and JSON forms.
+func observeNonUTF8Specifiers(b *harness.B, c *checker) {
+	var e *entry
+	for _, x := range Registry() {
+		if x.Name == "types.Specifier" {
+			e = x
+		}
+	}
+	for i := 0; i < 200; i++ {
+		var s types.Specifier
+		n := 1 + c.rng.IntN(16)
+		for j := 0; j < n; j++ {
+			s[j] = byte(c.rng.Uint32())
+		}
+		s[c.rng.IntN(n)] = 0xFF // never valid UTF-8
+		for k := range e.Forms {
+			class, _, _ := c.roundtripForm(e, &e.Forms[k], &s)
+			if class == "" {
+				b.Count("observed_non_utf8_specifier_roundtrips_ok(not judged)", 1)
+			} else {
+				b.Count("observed_non_utf8_specifier_roundtrip_fails(not judged)", 1)
+			}
+		}
+	}
+}
